@@ -156,3 +156,27 @@ CONTRACTS['EFLRSetsDict.get_all_items_for_set_type[type-without-sets]'] = dict(
     params={'eflr_set_type': 'cls:ZoneSet'}, returns='none',
     ensures=[('no-objects', '__out__ == ()'), ('the-look-up-registers-nothing', 'len(self) == 1')],
     modifies=[])
+
+# C12 "no origin, channels or frames - raise an exception": a DLISFile without any logical file has none of them (fixed: F17)
+CONTRACTS['DLISFile.generate_logical_records[no-logical-files]'] = dict(
+    target='DLISFile.generate_logical_records', props=['C12', 'C09'],
+    self_fields={'logical_files': {'list': []}, '_eflr_sets': {'cls': 'EFLRSetsDict', 'fields': {'__store__': 'clsdict{}'}}},
+    params={'chunk_size': 'int?', 'data': 'none', 'kwargs': {}}, returns={'cls': 'SizedGenerator', 'fields': {}},
+    stubs={'generator': dict(returns='opq:gen')},
+    raises={'RuntimeError': 'True'}, ensures=[])
+
+# DictDataWrapper.__init__ (the summary in c_data.py is what _make_multi_frame_data relies on): the parent constructor gets the SAME
+# dict object (C19: no copy is needed because nothing writes to it; C11), the caller's mapping - or the identity mapping over the keys of
+# the dict when none is given - and the row window unchanged
+for _mp, _nm in (('dict{K0:const:"K1",K1:const:"K0"}', 'mapping-given'), ('none', 'default-mapping')):
+    CONTRACTS[f'DictDataWrapper.__init__[{_nm}]'] = dict(
+        target='DictDataWrapper.__init__', props=['C11', 'C19', 'C03'], self_fields={}, self_inv=[],
+        params={'data_dict': 'dict{K0:opq:ndarray,K1:opq:ndarray}', 'mapping': _mp, 'known_dtypes': 'opq:known', 'from_idx': 'int', 'to_idx': 'int?'}, returns='none',
+        setup=['data_dict_in = data_dict', 'mapping_in = mapping', 'from_idx_in = from_idx', 'to_idx_in = to_idx'],
+        may_raise=['ValueError', 'RuntimeError', 'TypeError'],
+        call_requires={'SourceDataWrapper.__init__': [
+            ('the-wrapper-reads-the-dict-it-was-given', 'data_source is data_dict_in'),
+            ('window-forwarded', 'from_idx == from_idx_in and (to_idx == to_idx_in if to_idx_in is not None else to_idx is None)'),
+            ('mapping-forwarded-or-identity-over-the-keys',
+             ("mapping is mapping_in" if _mp != 'none' else "len(mapping) == 2 and mapping['K0'] == 'K0' and mapping['K1'] == 'K1'"))]},
+        ensures=[('callers-dict-keeps-its-entries', "len(data_dict) == 2 and data_dict['K0'] is old(data_dict['K0']) and data_dict['K1'] is old(data_dict['K1'])")])
